@@ -13,6 +13,7 @@ class PropBase:
     bins = []                # harness binaries
     profiles = ("debug", "release")
     has_model_driver = True  # coq/<pid>/Driver.v + Extract.v + ocaml/<pid>/main.ml exist
+    translators = None       # names of translate/*.py this property depends on (None = all)
     rule = ""
     trusted_base = []
     assumptions = []
@@ -73,8 +74,8 @@ def run_property(P, tier, seed, replay=None):
     violations = []     # dicts: case, what, profile, found_input
     info = {}
 
-    # 1. translators + proof gate
-    vlib.translate()
+    # 1. translators (only the ones this property depends on) + proof gate
+    vlib.translate(getattr(P, "translators", None))
     gate = vlib.coq_property_gate(pid, P.coq_dirs)
     log("[%s] coq gate: %d/%d theorems, %d lemmas, %.1fs%s" % (
         pid, gate["discharged"], gate["obligations"], gate["lemmas_qed"], gate["wall"],
@@ -182,7 +183,8 @@ def run_property(P, tier, seed, replay=None):
         path = vlib.write_replay(pid, "violation-%d" % len(seen), {
             "property": pid, "kind": "failing-input", "tier": tier, "seed": seed, **v,
             "replay_cmd": "./check %s --replay <this file>" % pid})
-        print("VIOLATION property=%s replay=%s" % (pid, path))
+        # a violation reported by extra() without a failing input (found_input False) is marked as such
+        print("VIOLATION property=%s replay=%s%s" % (pid, path, " no-failing-input-found" if v.get("found_input") is False else ""))
         log("[%s] violation: %s | case: %s" % (pid, v.get("what", "")[:300], (v.get("case") or "")[:300]))
         rc = 1
     if corr_unexplained and not fresh:
